@@ -27,16 +27,35 @@
 namespace ftp::ssl
 {
 
+/* The index of the SSL_CTX ex_data slot that records whether the session
+ * resumption was requested for a context.
+ */
+static int get_session_resumption_index()
+{
+    static const int index = SSL_CTX_get_ex_new_index(0, nullptr, nullptr, nullptr, nullptr);
+    return index;
+}
+
 context_ptr create_context(context::method method, bool ssl_session_resumption)
 {
     context_ptr ssl_context = std::make_unique<context>(method);
 
     if (ssl_session_resumption)
     {
-        SSL_CTX_set_session_cache_mode(ssl_context->native_handle(), SSL_SESS_CACHE_CLIENT);
+        /* Do not use SSL_SESS_CACHE_CLIENT as the marker: with the client
+         * cache mode OpenSSL makes a TLSv1.3 session unusable after its first
+         * resumption, so only the first data connection would reuse the
+         * session of the control connection.
+         */
+        SSL_CTX_set_ex_data(ssl_context->native_handle(), get_session_resumption_index(), ssl_context.get());
     }
 
     return ssl_context;
+}
+
+bool is_session_resumption_enabled(context & ssl_context)
+{
+    return SSL_CTX_get_ex_data(ssl_context.native_handle(), get_session_resumption_index()) != nullptr;
 }
 
 } // namespace ftp::ssl
